@@ -1,6 +1,6 @@
 """C07 -- a window of N is never exceeded, and is scoped to its own scheduler."""
 
-from . import common
+from . import predicates, common
 
 
 def check(ctx, rep):
@@ -11,7 +11,7 @@ def check(ctx, rep):
         "put on a queue whose maxsize is the window size, None mapped to unbounded (R07.2); the run "
         "builds exactly one window per activation from its own jobs_window and every start goes "
         "through it (R07.3); no job body is started anywhere else in the package (R07.4). "
-        "Decides the safety clause; asyncio.Queue's own bound is trusted (T4).")
+        "Decides the safety clause; asyncio.Queue's own bound is trusted (T4). R07.5 `jobs_window` is what the caller gave.")
     rep.declined = ["asyncio.Queue(maxsize=n) really blocks the n+1-th put (T4, trusted)"]
     rep.trusted = ["T3 cancellation is delivered at suspension points only", "T4 asyncio.Queue semantics",
                    "T9 user job code does not touch scheduler-private state"]
@@ -19,3 +19,4 @@ def check(ctx, rep):
     common.wrap_acquire_real(ctx, rep, "R07.2")
     common.window_scope(ctx, rep, "R07.3")
     common.who_may_start(ctx, rep, "R07.4")
+    predicates.config_verbatim(ctx, rep, "R07.5", ('jobs_window',))
